@@ -150,7 +150,7 @@ pub fn run(ctx: &Ctx) -> i32 {
             name_list.push((c, n.clone()));
         }
     }
-    let ncase = ctx.tier.pick(12usize, 64usize);
+    let ncase = ctx.tier.pick(12usize, 200usize);
     let name_sections: std::sync::Mutex<BTreeMap<String, BTreeSet<&'static str>>> = std::sync::Mutex::new(BTreeMap::new());
     run_workload(ctx, &mut acc, "documented-name-alone", (name_list.len() * ncase) as u64, |k, rng, acc| {
         let (cat, name) = &name_list[k as usize / ncase];
@@ -226,7 +226,7 @@ pub fn run(ctx: &Ctx) -> i32 {
 
     // ---- 2. exact selection with real names; no toml => all
     let valid: Vec<&'static str> = dets::ALL.iter().map(|(n, _)| *n).collect();
-    let nsel = ctx.tier.pick(300u64, 6000u64);
+    let nsel = ctx.tier.pick(300u64, 25000u64);
     run_workload(ctx, &mut acc, "exact-selection", nsel, |k, rng, acc| {
         if k == 1 {
             // a configuration that selects nothing: three empty lists
@@ -316,7 +316,7 @@ pub fn run(ctx: &Ctx) -> i32 {
     });
 
     // ---- 3. unknown names
-    let nunk = ctx.tier.pick(300u64, 4000u64);
+    let nunk = ctx.tier.pick(300u64, 20000u64);
     run_workload(ctx, &mut acc, "unknown-names", nunk, |k, rng, acc| {
         let base = *rng.pick(&valid);
         let all_known: BTreeSet<String> = valid.iter().map(|s| s.to_string()).chain(docs.values().flatten().cloned()).collect();
@@ -384,7 +384,7 @@ pub fn run(ctx: &Ctx) -> i32 {
     });
 
     // ---- 4. directory precedence
-    let nprec = ctx.tier.pick(80u64, 1200u64);
+    let nprec = ctx.tier.pick(80u64, 6000u64);
     let small = pool.progs.iter().find(|(n, _)| n.contains("Token")).map(|(_, t)| t.clone()).unwrap_or_else(|| pool.progs[0].1.clone());
     run_workload(ctx, &mut acc, "directory-precedence", nprec, |k, rng, acc| {
         let combo = k % 8; // bit0: --path, bit1: --toml, bit2: ./contracts exists
